@@ -659,4 +659,4 @@ func runC10G(c C10GCase) *vkit.Outcome {
 
 var propC10G = vkit.NewProp([]string{c10P}, "c10group", genC10G, runC10G)
 
-func TestVerifC10Group(t *testing.T) { propC10G.Check(t) }
+func TestVerifC10Group(t *testing.T) { propC10G.CrashFile = true; propC10G.Check(t) }
